@@ -810,6 +810,8 @@ CURATED = [
     ("{[#SP4]1[#SP4][#SP1r]1}.{#SP4=[OH;0.5]C[$]C[$]O,#SP1r=[$]OC[$]CO}", True, False),
     ("{[#A][#B][#C]}.{#A=O[>],#C=O[<],#B=[<]C[CH;x=R][>]C(=O)OC}", True, False),
     ("{[#A][#B]}.{#A=CC(/F)=[$],#B=[$]=C(/F)C}", True, False),
+    # one large residue: two-letter elements at in-residue indices of 100 and more
+    ("{[#A][#B]}.{#A=[$]" + "C(Cl)" * 104 + "C,#B=[$]CBr}", True, False),
     # the bare-H shorthand (rewritten to [H] with a warning), used by several fragments and several clients
     ("{[#Hter][#PE]([#PEO][#Hter])[#PE]([#PEO][#Hter])[#Hter]}.{#Hter=[$]H,#PE=[$]CC[$][$],#PEO=[$]COC[$]}", True, False),
     ("{[#Hter][#PS]|2[#Hter]}.{#PS=[$]CC[$]c1ccccc1,#Hter=[$]H}", True, False),
